@@ -43,7 +43,8 @@ struct Core {
     mutex_owner: BTreeMap<usize, usize>,      // mutex obj -> logical thread
     rw_writer: BTreeMap<usize, usize>,
     rw_readers: BTreeMap<usize, BTreeSet<usize>>,
-    notified: BTreeSet<usize>,                // condvar ids with a pending notification
+    notified: BTreeSet<usize>,                // logical threads that were waiting on a condvar when it was notified (a notification
+                                              // with no waiter is lost, as with a real condition variable)
     exited: BTreeSet<usize>,                  // hooks thread ids that have exited
     labels: BTreeMap<usize, &'static str>,
     log: Vec<Value>,
@@ -124,7 +125,11 @@ impl Observer for Sched {
             let mut core = self.core.lock().unwrap();
             let me = self.me(&core).unwrap_or(999);
             match ev.op {
-                Op::CvNotify => { core.notified.insert(ev.obj); }
+                Op::CvNotify => {
+                    let waiters: Vec<usize> = core.threads.iter().filter(|(_, t)| t.state == TState::Parked
+                        && matches!(t.pending, Pending::CvWait(cv) | Pending::CvWaitForever(cv) if cv == ev.obj)).map(|(i, _)| *i).collect();
+                    if ev.arg == 1 { for w in waiters { core.notified.insert(w); } } else if let Some(w) = waiters.first() { core.notified.insert(*w); }
+                }
                 _ => {}
             }
             let call = core.calls.get(&me).cloned().unwrap_or_default();
@@ -177,8 +182,8 @@ fn enabled(core: &Core, id: usize) -> Option<&'static str> {
             Op::Join => if core.exited.contains(&ev.obj) { Some("step") } else { None },
             _ => Some("step"),
         },
-        Pending::CvWait(cv) => if core.notified.contains(cv) { Some("wake") } else { Some("timeout") },
-        Pending::CvWaitForever(cv) => if core.notified.contains(cv) { Some("wake") } else { None },
+        Pending::CvWait(_) => if core.notified.contains(&id) { Some("wake") } else { Some("timeout") },
+        Pending::CvWaitForever(_) => if core.notified.contains(&id) { Some("wake") } else { None },
         Pending::None => None,
     }
 }
@@ -341,7 +346,7 @@ pub fn run_program(prog: &Value, out: &mut dyn Write) {
         let pick = choice.unwrap_or_else(|| if !solid.is_empty() { solid[0] } else { en[0].0 });
         let kind = en.iter().find(|(i, _)| *i == pick).unwrap().1;
         if let Pending::CvWait(cv) | Pending::CvWaitForever(cv) = core.threads[&pick].pending.clone() {
-            if kind == "wake" { core.notified.remove(&cv); }
+            core.notified.remove(&pick);
             core.log.push(json!({"t": pick, "k": if kind == "wake" { "CvWake" } else { "CvTimeout" }, "o": "CV", "id": cv, "arg": 0, "call": ""}));
         }
         let t = core.threads.get_mut(&pick).unwrap();
